@@ -149,7 +149,9 @@ func PointIndexOK(point string) bool { panic("ghost") }
 //@ ensures[empty] len(ers) == 0 ==> qResps == nil @props C12
 //@ ensures[errkind] gqlerrors.nonvacuous(err) @props C09
 //@ ensures[fan-out] err == nil && len(ers) > 0 ==> len(qResps) == len(ers) && forall(j, 0, len(ers), filled(qResps, ers, j)) @props C12
-//@ ensures[own-copies] err == nil ==> ownCopies(qResps) @using copies @props C12
+// (C13: an object stitched in at two places would be scrubbed twice; the second visit no longer finds the __typename and
+// falls into the branch of ScrubFields.clean that depends on map iteration order, B19)
+//@ ensures[own-copies] err == nil ==> ownCopies(qResps) @using copies @props C12 C13
 //@ modifies fresh, entries(map[string]interface{}), elems(interface{}), elems(map[string]interface{}), entries(map[string]*PointData), global(queryer.QueryCalls), global(queryer.LastStatus), all(queryer.MultiOpQueryer.client), all(indexMapValue.indexes), elems(int)
 //@ loop 0 invariant[own] fresh(iMap) && fresh(nillResps) && (base(batchRequest) == 0 || fresh(batchRequest)) && iMap != nil && nillResps != nil
 //@ loop 0 invariant[calls] queryer.QueryCalls == old(queryer.QueryCalls)
@@ -160,16 +162,16 @@ func PointIndexOK(point string) bool { panic("ghost") }
 //@ loop 0 invariant[nills] forallT(j, int, has(nillResps, j) ==> 0 <= j && j < it) @using nills
 //@ loop 0 invariant[covered] forall(j, 0, it, has(nillResps, j) || existsT(k, string, has(iMap, k) && exists(p, 0, len(iMap[k].indexes), iMap[k].indexes[p] == j))) @using covered, dom, kept, own
 //@ loop 1 invariant[own] fresh(qResps) && len(qResps) == len(ers)
-//@ loop 1 invariant[copies] ownCopies(qResps) @using copies, own
+//@ loop 1 invariant[copies] ownCopies(qResps) @using copies, own @props C12 C13
 //@ loop 1 invariant[mono] forall(j, 0, len(ers), qResps[j] == nil || filled(qResps, ers, j))
 //@ loop 1 invariant[done] forallT(k, string, has(iMap, k) && iMap[k].targetIndex < it ==> forall(p, 0, len(iMap[k].indexes), filled(qResps, ers, iMap[k].indexes[p])))
 //@ loop 2 invariant[own] fresh(qResps) && len(qResps) == len(ers)
-//@ loop 2 invariant[copies] ownCopies(qResps) @using copies, own
+//@ loop 2 invariant[copies] ownCopies(qResps) @using copies, own @props C12 C13
 //@ loop 2 invariant[mono] forall(j, 0, len(ers), qResps[j] == nil || filled(qResps, ers, j))
 //@ loop 2 invariant[inner] forall(p, 0, it, filled(qResps, ers, indexes[p]))
 //@ loop 2 invariant[done] forallT(k, string, has(iMap, k) && iMap[k].targetIndex < i ==> forall(p, 0, len(iMap[k].indexes), filled(qResps, ers, iMap[k].indexes[p])))
 //@ loop 3 invariant[own] fresh(qResps) && len(qResps) == len(ers)
-//@ loop 3 invariant[copies] ownCopies(qResps) @using copies, own
+//@ loop 3 invariant[copies] ownCopies(qResps) @using copies, own @props C12 C13
 //@ loop 3 invariant[nill-range] forallT(j, int, has(nillResps, j) ==> 0 <= j && j < len(ers))
 //@ loop 3 invariant[mono] forall(j, 0, len(ers), qResps[j] == nil || filled(qResps, ers, j))
 //@ loop 3 invariant[nills] forallT(j, int, seen(j) ==> filled(qResps, ers, j))
